@@ -10,6 +10,7 @@ import PV.Driver.Atomics
 import PV.Driver.Locks
 import PV.Driver.HashX
 import PV.Driver.RWLock
+import PV.Driver.UThread
 def main (args : List String) : IO UInt32 := do
   match args with
   | ["ht"] => PV.Driver.HT.run; return 0
@@ -25,4 +26,5 @@ def main (args : List String) : IO UInt32 := do
   | ["hashx"] => PV.Driver.HashX.run; return 0
   | ["rwlock"] => PV.Driver.RWLock.run; return 0
   | ["rwlock-posix"] => PV.Driver.RWLock.runPosix; return 0
+  | ["uthread"] => PV.Driver.UThread.run; return 0
   | _ => IO.eprintln "usage: pvdriver <family>  (ops on stdin)"; return 2
